@@ -72,3 +72,28 @@ CORPUS += [
     V("C05", "eq-cvrptw-not-gt", R + "cvrptw/env.py", 'td["current_time"] + dist <= td["time_windows"][..., 1]', '~(td["current_time"] + dist > td["time_windows"][..., 1])', None),
     V("C05", "eq-fjsp-gt-operator", "rl4co/envs/scheduling/fjsp/env.py", 'td["busy_until"].gt(td["time"].unsqueeze(1))', '(td["busy_until"] > td["time"].unsqueeze(1))', None),
 ]
+
+CORPUS += [
+    # ---------------------------------------------------------------- C06
+    V("C06", "cvrp-eps-sign-flip", R + "cvrp/env.py", 'used_cap <= td["vehicle_capacity"] + 1e-5', 'used_cap <= td["vehicle_capacity"] - 1e-5', "C06.b"),
+    V("C06", "cvrp-checker-strict", R + "cvrp/env.py", 'used_cap <= td["vehicle_capacity"] + 1e-5', 'used_cap < td["vehicle_capacity"] + 1e-5', "C06.b"),
+    V("C06", "cvrp-checker-huge-tol", R + "cvrp/env.py", 'used_cap <= td["vehicle_capacity"] + 1e-5', 'used_cap <= td["vehicle_capacity"] + 0.5', "C06.b"),
+    V("C06", "mtvrp-checker-speed-dropped", R + "mtvrp/env.py", 'curr_time + dist / td["speed"].squeeze(-1),', "curr_time + dist,", "C06.a"),
+    V("C06", "mtvrp-checker-no-service-time", R + "mtvrp/env.py", 'curr_time = curr_time + gather_by_index(td["service_time"], next_node)', "curr_time = curr_time + 0.0", "C06.a"),
+    V("C06", "cvrptw-checker-no-durations", R + "cvrptw/env.py", 'curr_time = curr_time + gather_by_index(td["durations"], next_node).reshape(\n                [batch_size, 1]\n            )', "curr_time = curr_time + 0.0", "C06.a"),
+    V("C06", "pctsp-prize-eps-flip", R + "pctsp/env.py", "(p.sum(-1) >= 1 - 1e-5)", "(p.sum(-1) >= 1 + 1e-5)", "C06.b"),
+    V("C06", "pdp-precedence-nonstrict-reversed", R + "pdp/env.py", '''            visited_time[:, 1 : actions.size(1) // 2 + 1]
+            < visited_time[:, actions.size(1) // 2 + 1 :]
+        ).all(), "Deliverying without pick-up"''', '''            visited_time[:, 1 : actions.size(1) // 2 + 1]
+            > visited_time[:, actions.size(1) // 2 + 1 :]
+        ).all(), "Deliverying without pick-up"''', "C06.a"),
+    V("C06", "op-length-assert-dropped-term", R + "op/env.py", "length[..., None] <= max_length + 1e-5", "length[..., None] * 0 <= max_length + 1e-5", "C06.a"),
+    V("C06", "svrp-skill-reversed", R + "svrp/env.py", 'skills_ordered[batch, start : each[1]] <= td["techs"][batch, tech]', 'skills_ordered[batch, start : each[1]] >= td["techs"][batch, tech]', "C06.a"),
+    V("C06", "gate-always-check", "rl4co/envs/common/base.py", "        if self.check_solution:\n            self.check_solution_validity(td, actions)\n        return self._get_reward(td, actions)", "        self.check_solution_validity(td, actions)\n        return self._get_reward(td, actions)", "C06.d"),
+    V("C06", "gate-inverted", "rl4co/envs/common/base.py", "        if self.check_solution:\n            self.check_solution_validity(td, actions)\n        return self._get_reward(td, actions)", "        if not self.check_solution:\n            self.check_solution_validity(td, actions)\n        return self._get_reward(td, actions)", "C06.d"),
+    V("C06", "mtvrp-mask-vs-checker-strict", R + "mtvrp/env.py", 'curr_time <= gather_by_index(td["time_windows"], next_node)[..., 1]', 'curr_time < gather_by_index(td["time_windows"], next_node)[..., 1]', "C06"),
+    V("C06", "sdvrp-final-demand-check-dropped", R + "sdvrp/env.py", 'assert (demands == 0).all(), "All demand must be satisfied"', 'assert (demands >= 0).all(), "All demand must be satisfied"', "C06.a"),
+    V("C06", "eq-cvrp-checker-flip", R + "cvrp/env.py", 'used_cap <= td["vehicle_capacity"] + 1e-5', 'td["vehicle_capacity"] + 1e-5 >= used_cap', None),
+    V("C06", "eq-cvrp-checker-move-eps", R + "cvrp/env.py", 'used_cap <= td["vehicle_capacity"] + 1e-5', 'used_cap - 1e-5 <= td["vehicle_capacity"]', None),
+    V("C06", "eq-mtvrp-rename", R + "mtvrp/env.py", "curr_time", "clock", None, count=99),
+]
